@@ -1,4 +1,4 @@
-import FxVerif.Proofs.C13Stake
+import FxVerif.Proofs.C13Owed
 /-!
 # C13 — oracle registry one-to-one; stake recoverable; only missed signing is slashed
 
@@ -187,6 +187,52 @@ theorem stake_recoverable (s : State) (o : Nat) (r : Oracle)
   unfold unbond
   simp [unbonded, hp', get_erase]
 
+/-- **stake_recoverable, for reachable states, without a balance hypothesis**: in every state reachable without a
+validator slash, an oracle that governance removed (off the list, offline), whose unbonding entries have all matured, and
+that never came back online after a removal (ghost `reon = false`; the re-approval history is the known finding), unbonds
+successfully and is paid the delegate-address balance minus the penalty — and that balance is at least the recorded
+stake, so it gets back at least `DelegateAmount − penalty`.  The stake cannot get lost on the way: delegated + unbonding +
+held by the delegate address ≥ recorded stake is an invariant (`OwedInv`), removal moves all of it into unbonding entries
+(`StakeInv.out`), maturity moves it to the delegate address. -/
+theorem stake_recoverable_reachable (p : Params) (bals : Store Nat Nat) (ops : List Op) (hthr : 0 < p.thr)
+    (hops : ops.all noValSlash = true) (a : Nat) (r : Oracle)
+    (hr : Store.get (run (init p bals) ops).oracles a = some r)
+    (hoff : (run (init p bals) ops).proposal.contains a = false) (hoffl : r.online = false)
+    (hmat : (run (init p bals) ops).ubds.all (fun u => u.oracle != a) = true)
+    (hre : (ghOf (run (init p bals) ops) a).reon = false) :
+    let s := run (init p bals) ops
+    (unbond s a).2 = .ok ∧
+    getBal (unbond s a).1.bal a = getBal s.bal a + (getBal s.dbal a - slashAmount s.p r) ∧
+    r.amount ≤ getBal s.dbal a ∧
+    Store.get (unbond s a).1.oracles a = none := by
+  intro s
+  have hall := run_all2 slashing_code_facts guard_code_facts ops (init p bals) hthr hops
+    ⟨⟨init_inv p bals, init_fit p bals, init_stake p bals⟩, init_owed p bals⟩
+  have hnin : a ∉ s.proposal := by simpa using hoff
+  have hdel : Store.get s.deleg (a, r.val) = none := hall.all.stake.out a r hr hnin
+  have how := hall.owed.ow a r hr hre
+  have hub : ubdSum s a = 0 := by
+    simp only [ubdSum]
+    have : s.ubds.filter (fun u => u.oracle == a) = [] := by
+      rw [List.filter_eq_nil_iff]
+      intro u hu
+      have := (List.all_eq_true.mp hmat) u hu
+      simpa using this
+    rw [this]; rfl
+  have hda : delegAmt s a r.val = 0 := by simp only [delegAmt]; rw [hdel]; rfl
+  have hbal : r.amount ≤ getBal s.dbal a := by
+    have how' : r.amount ≤ delegAmt s a r.val + ubdSum s a + getBal s.dbal a := how
+    rw [hda, hub] at how'; omega
+  have hpend : s.ubds.any (fun u => u.oracle == a && u.val == r.val) = false := by
+    rw [List.any_eq_false]
+    intro u hu
+    have := (List.all_eq_true.mp hmat) u hu
+    have hne : ¬ u.oracle = a := by simpa using this
+    simp [hne]
+  have hsl : slashAmount s.p r ≤ getBal s.dbal a := Nat.le_trans (penalty_le_stake s.p r) hbal
+  obtain ⟨h1, h2, _, _, h5, _⟩ := stake_recoverable s a r hr hoff hoffl hpend hsl
+  exact ⟨h1, h2, hbal, h5⟩
+
 /-- before maturity the unbond is refused and nothing changes (the record that entitles the oracle to its stake stays) -/
 theorem unbond_waits_for_maturity (s : State) (o : Nat) (r : Oracle)
     (hr : Store.get s.oracles o = some r) (hp : s.proposal.contains o = false) (hoff : r.online = false)
@@ -293,5 +339,10 @@ example : (ghOf (run (init pEx bEx) (life.take 5)) 0).undel = 0 ∧
     Store.get (run (init pEx bEx) (life.take 5)).deleg (0, 0) = some 100 := by decide
 example : ((Store.get reapproved.oracles 0).map (fun r => (r.amount, r.online)), Store.get reapproved.deleg (0, 0),
     (ghOf reapproved 0).undel) = (some (200, true), some 100, 100) := by decide
+
+-- stake_recoverable_reachable: its hypotheses hold in the reachable state `life` (oracle 0 removed, matured)
+example : (run (init pEx bEx) life).proposal.contains 0 = false ∧
+    (run (init pEx bEx) life).ubds.all (fun u => u.oracle != 0) = true ∧ (ghOf (run (init pEx bEx) life) 0).reon = false ∧
+    ((Store.get (run (init pEx bEx) life).oracles 0).map (·.online)) = some false := by decide
 
 end FxVerif.Props.C13
